@@ -2,6 +2,7 @@ import MwVerif.Driver.C15
 import MwVerif.Driver.Qs
 import MwVerif.Driver.C19
 import MwVerif.Driver.C12
+import MwVerif.Driver.C14
 
 open MwVerif.Driver
 
@@ -10,6 +11,7 @@ def main (args : List String) : IO UInt32 := do
   let stdout ← IO.getStdout
   match args with
   | ["c15"] => loop stdin stdout C15.step; return 0
+  | ["c14"] => loop stdin stdout C14.step; return 0
   | ["c12"] => loop stdin stdout C12.step; return 0
   | ["c19"] => loop stdin stdout C19.step; return 0
   | ["qs"] => Qs.loop stdin stdout MwVerif.Qs.init; return 0
